@@ -34,6 +34,10 @@ impl Instant {
 pub fn advance(d: Duration) {
     CLOCK_NS.fetch_add(d.as_nanos() as u64, Ordering::SeqCst);
 }
+/// Harness: set the virtual clock (between cases, when no `Instant` of an earlier case is alive).
+pub fn set_now_ns(ns: u64) {
+    CLOCK_NS.store(ns, Ordering::SeqCst);
+}
 /// Harness: read the virtual clock (nanoseconds).
 pub fn now_ns() -> u64 {
     CLOCK_NS.load(Ordering::SeqCst)
